@@ -21,7 +21,8 @@ META = dict(
               "(iterative context bounding) under a controlled scheduler, judged by a monitor of the statement's clauses",
     text="2 and 3 real threads call init_once on one FFI object with every combination of succeeding/raising "
          "initialisers, with a shared tag, with distinct-but-equal tags whose __hash__/__eq__ are scheduling points, "
-         "and with two different tags.  The pure-Python implementation is preempted at every source line (thorough: "
+         "with two different tags, and (2 threads) with equal tags whose k-th comparison of the execution raises "
+         "(k = 1..4).  The pure-Python implementation is preempted at every source line (thorough: "
          "every bytecode) and at every lock operation; the C implementation at its lock operations (compile-time "
          "interposition) and wherever it calls back into Python.  Every schedule with <= 2 (thorough 3) preemptions "
          "is executed; the 2-thread spaces are explored without bound where feasible.",
@@ -36,12 +37,18 @@ class InitErr(Exception):
         self.owner = owner
 
 
-class Tag(object):
-    """Distinct-but-equal tags whose hashing and comparison are scheduling points."""
+class TagErr(Exception):
+    pass
 
-    def __init__(self, s, name):
+
+class Tag(object):
+    """Distinct-but-equal tags whose hashing and comparison are scheduling points.  With ctl["fail_at"] = k the
+    k-th comparison of the execution raises TagErr (a tag whose __eq__ can fail is a tag like any other)."""
+
+    def __init__(self, s, name, ctl=None):
         self.s = s
         self.name = name
+        self.ctl = ctl
 
     def __hash__(self):
         self.s.point(("hash",))
@@ -49,6 +56,10 @@ class Tag(object):
 
     def __eq__(self, other):
         self.s.point(("eq",))
+        if self.ctl is not None:
+            self.ctl["n"] += 1
+            if self.ctl["n"] == self.ctl["fail_at"]:
+                raise TagErr(self.name)
         return isinstance(other, Tag) and other.name == self.name
 
     def __repr__(self):
@@ -57,7 +68,7 @@ class Tag(object):
 
 def tag_groups(tagmode, n):
     """tag group index per thread"""
-    if tagmode in ("shared", "eq"):
+    if tagmode in ("shared", "eq") or tagmode.startswith("eqfail"):
         return [0] * n
     if tagmode == "two":
         return [0] * (n - 1) + [1]
@@ -96,8 +107,12 @@ def run_one(cfg, prefix):
                 lk.held_by = None
                 s.point(("c-released",))
         sys._cffi_verif_sched = hook
+    ctl = None
     if tagmode == "eq":
         tags = [Tag(s, "g0") for _ in range(n)]
+    elif tagmode.startswith("eqfail"):
+        ctl = {"n": 0, "fail_at": int(tagmode[6:])}
+        tags = [Tag(s, "g0", ctl) for _ in range(n)]
     else:
         tags = ["tag%d" % g for g in groups]
 
@@ -122,6 +137,9 @@ def run_one(cfg, prefix):
         except InitErr as e:
             sys.settrace(None)
             s.event("call_exc", groups[i], e.owner)
+        except TagErr:
+            sys.settrace(None)
+            s.event("call_tagexc", groups[i])
         except sched.SchedAbort:
             raise
         except BaseException as e:
@@ -147,7 +165,9 @@ def run_one(cfg, prefix):
             def pf():
                 ran.append(1)
                 return "probe"
-            tg = Tag(s, "g0") if tagmode == "eq" else "tag%d" % g
+            if ctl is not None:
+                ctl["fail_at"] = -1           # the probe's comparisons do not fail
+            tg = Tag(s, "g0") if (tagmode == "eq" or ctl is not None) else "tag%d" % g
             try:
                 r = ffi.init_once(pf, tg)
             except BaseException as e:
@@ -167,8 +187,12 @@ def monitor(s, cfg):
         return bad
     active = {}
     done = {}
+    done_by = {}
     own = {}       # tid -> 'ok' / 'raise' if its own f ran
     returned = set()
+    # a call whose own f completed but which then ends with the tag's exception could not STORE its result (the
+    # store compares the tag): that completion cannot count, from the moment it happened
+    tagexc_tids = set(ev[0] for ev in s.log if ev[1] == "call_tagexc")
     for ev in s.log:
         tid, kind = ev[0], ev[1]
         g = ev[2]
@@ -181,11 +205,15 @@ def monitor(s, cfg):
             if tid in own:
                 bad.append("initialiser-ran-twice-in-one-call")
             own[tid] = "running"
+        elif kind == "f_ok" and tid in tagexc_tids:
+            active[g] -= 1
+            own[tid] = "ok"
         elif kind == "f_ok":
             active[g] -= 1
             if g in done:
                 bad.append("two-normal-completions")
             done[g] = ev[3]
+            done_by[g] = tid
             own[tid] = "ok"
         elif kind == "f_raise":
             active[g] -= 1
@@ -202,6 +230,11 @@ def monitor(s, cfg):
             returned.add(tid)
             if own.get(tid) != "raise" or ev[3] != tid:
                 bad.append("foreign-exception-propagated")
+        elif kind == "call_tagexc":
+            # the lookup of this call's tag failed: the call ends with the tag's own exception (whatever its f did);
+            # every other clause still holds for the execution.  If it is the STORE of this call's own result
+            # that failed, that completion could not be recorded: it does not count (nothing else can be asked)
+            returned.add(tid)
         elif kind == "call_badexc":
             returned.add(tid)
             bad.append("unexpected-exception:%s" % ev[3])
@@ -224,6 +257,9 @@ def configs(ctx):
             for fs in itertools.product(("ok", "raise"), repeat=n):
                 for tagmode in ("shared", "eq", "two"):
                     out.append((impl, n, fs, tagmode, False))
+                if n == 2:
+                    for k in (1, 2, 3, 4):
+                        out.append((impl, n, fs, "eqfail%d" % k, False))
     if not ctx.quick:
         for n in (2, 3):
             for fs in itertools.product(("ok", "raise"), repeat=n):
